@@ -227,7 +227,7 @@ def reference(sc, ck):
                     return True
         return False
 
-    rules = [r for r in sc["rules"] if not (sc["mode"] == "P" and not r[1])]   # aclParseAccessLine: "contains no ACL's, skipping"
+    rules = sc["rules"]    # a rule without ACLs matches vacuously ("0..4 ACLs each")
     try:
         for act, items in rules:
             if act in ck["banned"]:
@@ -241,15 +241,8 @@ def reference(sc, ck):
     return ("Di" if rules[-1][0] == "+" else "Ai"), len(rules)
 
 
-def oracle(line, impl):
-    if impl.startswith("abort:") or impl.startswith("harness-inconsistency"):
-        return "abort/inconsistency: " + impl[:200]
-    try:
-        sc = parse(line)
-    except Bad:
-        return None if impl == "bad-op" else "harness accepted a malformed line: " + impl[:80]
-    if impl.startswith("reject:") or impl == "bad-op":
-        return "harness refused a well-formed scenario: " + impl
+def judge(sc, impl):
+    """the oracle on a parsed scenario"""
     parts = impl.split(" ")
     if len(parts) != 4 or not parts[0].startswith("r="):
         return "unparsable output " + impl[:120]
@@ -271,6 +264,24 @@ def oracle(line, impl):
         elif got != want:
             return "checklist %d answered %s, first-match evaluation gives %s" % (k, got, want)
     return None
+
+
+def has_empty_rule(sc):
+    return sc["mode"] == "P" and any(not items for _, items in sc["rules"])
+
+
+def oracle(line, impl):
+    if impl.startswith("abort:") or impl.startswith("harness-inconsistency"):
+        return "abort/inconsistency: " + impl[:200]
+    try:
+        sc = parse(line)
+    except Bad:
+        return None if impl == "bad-op" else "harness accepted a malformed line: " + impl[:80]
+    if impl == "reject:self-destruct" and has_empty_rule(sc):
+        return None     # a configuration that squid refuses decides nothing (what the candidate fix C44-empty-rule-skipped does)
+    if impl.startswith("reject:") or impl == "bad-op":
+        return "harness refused a well-formed scenario: " + impl
+    return judge(sc, impl)
 
 
 def compare(line, impl, model):
@@ -296,6 +307,18 @@ def tag(line, impl, model):
 
 
 def classify(line, impl, why):
+    """C44-empty-rule-skipped: the configuration went through aclParseAccessLine, has an allow/deny line without ACLs, and the answers
+    are exactly those of the configuration without these lines (everything else about the case is as the property demands)"""
+    try:
+        sc = parse(line)
+    except Bad:
+        return None
+    if not has_empty_rule(sc) or not impl.startswith("r="):
+        return None
+    kept = dict(sc)
+    kept["rules"] = [r for r in sc["rules"] if r[1]]
+    if judge(kept, impl) is None:
+        return "C44-empty-rule-skipped"
     return None
 
 
